@@ -119,6 +119,7 @@ def parseOp (toks : List String) : Option Op :=
   | ["hs", "websocket", eio, b64, _] => some (.hsWebsocket (protoOf eio) (b64 = "1"))
   | ["poll", s] => some (.poll (sidOf s) [])
   | ["poll", s, ae] => some (.poll (sidOf s) (if ae = "-" ∨ ae = "initial" then [] else unhex ae))
+  -- d<n>: a declared length below the body's (and within the limit): the pre-check passes as if nothing were declared
   | ["post", s, k, d, hex] => some (.post (sidOf s) (k = "b") (d = "1") (unhex hex) false)
   | ["postj", s, hex] => some (.post (sidOf s) false true ([100, 61] ++ queryEscape (jsonpClientEscape (unhex hex))) true)
   | ["abort", r] => some (.abort r.toNat!)
